@@ -201,7 +201,6 @@ Definition ext12 (env : string -> list val -> list (string * val) -> state -> ou
     match args with [t; VInt s] => on1 "eq" t (fun x => Some (eq_scalar x s)) st | _ => Stuck "eq" end
   else if is f "$method.item" then
     match args with
-    | [VInt z] => Ok (VInt z) st                       (* a 0-d tensor is its integer *)
     | [t] => match dec12 t with
              | Some x => match item x with Some z => Ok (VInt z) st | None => outside "item" end
              | None => Stuck "item"
@@ -248,11 +247,12 @@ Definition ext12 (env : string -> list val -> list (string * val) -> state -> ou
   else if is f "$setitem" then
     match args with
     | [t; k; v] =>
-        match dec12 t, dec_key k, v with
-        | Some x, Some (KInt i), VInt z => ret_res "x[i] = v" (set_item x i z) st
-        | Some x, Some (KSlice a b), VInt z => ret12 "x[a:b] = v" (fill_slice x a b z) st
-        | Some x, Some (KInt i), _ =>
-            match dec12 v with Some r => ret12 "x[i] = row" (set_row x i r) st | None => Stuck "setitem" end
+        match dec12 t, dec_key k, dec12 v with
+        | Some x, Some (KInt i), Some r => ret12 "x[i] = row" (set_row x i r) st
+        | Some x, Some (KInt i), None =>
+            match v with VInt z => ret_res "x[i] = v" (set_item x i z) st | _ => Stuck "setitem" end
+        | Some x, Some (KSlice a b), None =>
+            match v with VInt z => ret12 "x[a:b] = v" (fill_slice x a b z) st | _ => Stuck "setitem" end
         | _, _, _ => Stuck "setitem"
         end
     | _ => Stuck "setitem"
